@@ -131,8 +131,27 @@ func (c *Ctx) tokenHandlerGates(th tokenHandler, fn *ssa.Function) {
 		if call == nil || Callee(call) != "(time.Time).After" {
 			return false
 		}
-		now := HasOrigin(c.rawOrigins(Arg(call, 0)), func(o Origin) bool { return o.Kind == "call" && strings.HasPrefix(o.Name, "time.Now#") })
-		exp := HasOrigin(c.rawOrigins(Arg(call, 1)), func(o Origin) bool { return o.Kind == "call" && strings.Contains(o.Name, "."+th.expiry+"#") })
+		// the instants compared are "now" and the stored expiry themselves: a zone
+		// conversion leaves an instant what it is, arithmetic (Add, Sub, Truncate to a
+		// unit) moves it and with it the moment the link dies
+		instant := func(v ssa.Value) ssa.CallInstruction {
+			for d := 0; d < 4; d++ {
+				ic, _ := CallOf(v)
+				if ic == nil {
+					return nil
+				}
+				switch Callee(ic) {
+				case "(time.Time).UTC", "(time.Time).Local":
+					v = Arg(ic, 0)
+					continue
+				}
+				return ic
+			}
+			return nil
+		}
+		nc, ec := instant(Arg(call, 0)), instant(Arg(call, 1))
+		now := nc != nil && Callee(nc) == "time.Now"
+		exp := ec != nil && ec.Common().IsInvoke() && ec.Common().Method.Name() == th.expiry
 		return now && exp
 	}
 	// verifier compare: ctc credential whose operands are ParseToken#1 (same call) and the stored verifier of the looked-up user
